@@ -188,6 +188,12 @@ class WindowedWarmUpStager(Stager):
                 iterations of each subsequent slow adaptation window by. Defaults to 2
                 such that each window doubles in size.
         """
+        if n_init_slow_window_iter < 1:
+            msg = "n_init_slow_window_iter must be a positive integer."
+            raise ValueError(msg)
+        if slow_window_multiplier < 1:
+            msg = "slow_window_multiplier must be greater than or equal to one."
+            raise ValueError(msg)
         self.n_init_slow_window_iter = n_init_slow_window_iter
         self.n_init_fast_stage_iter = n_init_fast_stage_iter
         self.n_final_fast_stage_iter = n_final_fast_stage_iter
